@@ -81,6 +81,12 @@ CHECKS.update({
          "UTC times. Uses the dvb.go hooks.", "5 C15"),
 })
 
+CHECKS.update({
+ "C16": (MC, "stateless model checking of thread interleavings: hand-written cooperative scheduler over the real code with the sync.Pool replaced by a controllable shim (go build -overlay), DFS over scheduling and pool-item choices within a preemption bound and a data-deviation bound, sharded over 14 processes; plus a separate free-running -race pass of the same harness bodies",
+         "Threads = independent Demuxer/Muxer instances (2-3 per scenario) whose only shared object is the package-level buffer pool; scheduling points at thread start/end and every pool Get/Put, data choice at Get (any pooled item or a fresh one), pooled buffers poisoned on Put; every execution is run to completion and each thread's results must equal its solo run; pool ownership is asserted; every returned Packet/DemuxerData is deep-copied at delivery and re-compared after later calls (aliasing of the reused read buffer or of pooled memory); the Muxer must not touch the caller's payload.",
+         "Preemption inside library code between pool operations is not explored (no synchronisation there to reorder - instance-local memory); that premise is what the free-running race pass checks (2/8/64 goroutines under -race; it samples schedules and is the prescribed complement, not the deciding step). If pools.go stops importing sync the overlay is a no-op and the evidence says pool_shim_active=false.", "5 C16"),
+})
+
 NOT_YET = {}
 
 def main():
